@@ -175,9 +175,11 @@ def _walk_types(T, seen, tv=None, depth=0):
                 a = typing.get_args(a)[0]
             yield from _walk_types(a, seen, tv, depth + 1)
     elif ti.kind == "namedtuple":
+        tv = tinfo.scope(ti, tv)
         for n, ft in tinfo.nt_fields(ti.type):
             yield from _walk_types(ft, seen, tv, depth + 1)
     elif ti.kind == "typeddict":
+        tv = tinfo.scope(ti, tv)
         hints, req, opt = tinfo.td_keys(ti.type)
         for kk in hints:
             yield from _walk_types(hints[kk], seen, tv, depth + 1)
